@@ -111,6 +111,11 @@ pub enum FaultKind {
     /// at the chosen index the transport is closed under the client (the peer sees the hang-up at
     /// the same moment); this and every later operation reports the disconnect
     Eof,
+    /// the operation with the chosen index fails with an error and the connection stays
+    /// half-broken: later writes fail, later reads neither fail nor deliver anything (the
+    /// `AsyncTransport` contract calls a transport unusable after its first error; a user that
+    /// goes on reading, expecting a second error, waits forever)
+    HalfOpen,
 }
 
 #[derive(Debug, Clone, PartialEq, Eq)]
@@ -160,16 +165,22 @@ pub struct FaultyTransport<T> {
     inner: Option<T>,
     ctl: Rc<FaultCtl>,
     failed: Option<TErr>,
+    /// after a `HalfOpen` fault: reads stay pending
+    read_dead: bool,
 }
 
 impl<T> FaultyTransport<T> {
     pub fn new(inner: T, ctl: Rc<FaultCtl>) -> Self {
-        FaultyTransport { inner: Some(inner), ctl, failed: None }
+        FaultyTransport { inner: Some(inner), ctl, failed: None, read_dead: false }
     }
 
     fn inject(&mut self, kind: FaultKind, which: &'static str) -> TErr {
         let e = match kind {
             FaultKind::Error => TErr::Injected,
+            FaultKind::HalfOpen => {
+                self.read_dead = true;
+                TErr::Injected
+            }
             FaultKind::Eof => {
                 self.inner = None;
                 TErr::Disconnected
@@ -197,6 +208,9 @@ impl<T: AsyncTransport + Unpin> AsyncTransport for FaultyTransport<T> {
         } else {
             this.ctl.seen_epoch.set(ep);
             this.ctl.polls_in_epoch.set(0);
+        }
+        if this.read_dead {
+            return Poll::Pending;
         }
         if let Some(e) = &this.failed {
             return Poll::Ready(Err(e.clone()));
